@@ -20,7 +20,7 @@ PARAMS = [("1/2", "1/10", "1/20", "1/20"), ("1/10", "1/2", "1/20", "1/20"), ("1/
           ("2/5", "3/5", "1/4", "1/4")]
 
 
-def cases(tier, rng, dist):
+def _cases(tier, rng, dist):
     L = 8 if tier == "quick" else 12
     for n in range(0, L + 1):
         for xs in itertools.product((0, 1), repeat=n):
@@ -54,7 +54,7 @@ def cases(tier, rng, dist):
         yield {"lr": "bern", "po": ["1/10", "1/100"][k % 2], "pa": "1/2", "alpha": "1/20", "beta": "1/20", "xs": [1] * (400 + 50 * k), "ro": False, "dtype": ["list", "int64"][k % 2]}
 
 
-def run(c):
+def _run(c):
     log = []
     if c["lr"] == "bern":
         po, pa = float(Fraction(c["po"])), float(Fraction(c["pa"]))
@@ -161,3 +161,31 @@ def generated(tier):
     """source-derived obligations (G4 formulas): regenerated from /repo's current source text on every run"""
     from ..translate.tables import obligations
     return obligations("C15")
+
+
+# ---- failure paths (round 12): every third case is preceded by calls that the library rejects, or that fail inside a user
+# callable; they raise on the unchanged tree and must leave nothing behind (common.fail_first) ----
+
+def failing_calls(c):
+    k = 1 + c["ff"] % 4
+    seen = []
+    def lr(x):
+        seen.append(1)
+        if len(seen) >= k:
+            raise (Abort() if c["ff"] % 2 else ValueError("likelihood ratio failed on purpose"))
+        return 1.0
+    xs = [1, 0, 1, 1, 0, 1, 0, 0][:max(k + 1, 2)]
+    return [("likelihood ratio raises at prefix %d" % k, lambda: sprt(lr, 0.05, 0.05, xs, True)),
+            ("alpha given as a string", lambda: sprt(lambda x: 1.0, "0.05", 0.05, [1, 0, 1], True))]
+
+
+def cases(tier, rng, dist):
+    return mark_ff(_cases(tier, rng, dist))
+
+
+def run(c):
+    ff = fail_first(failing_calls(c)) if "ff" in c else None
+    o = _run(c)
+    if ff is not None and isinstance(o, dict):
+        o["ff"] = ff
+    return o
